@@ -71,6 +71,8 @@ def run(ctx):
            + txscen.follow_on(rng, 60 if quick else 600))
     mism, fam, nontriv, samples = base.run_family(ctx, "C08", check, scs, rng)
     cases, mism2, lat_som, lat_eom = base.receiver_level(ctx, rng, 42 if quick else 600, "C08")
+    import rxlib as _rx
+    ctx.coverage["reuse_after_reset_same_message_times"] = _rx.reset_reuse(ctx, rng.fork("reset"), 3 if quick else 20, lambda t: t.startswith("TM"), False, "message events (with timestamps)")
     ctx.coverage["second_header_during_alert_ok"] = during_alert(ctx, rng.fork("alert"), 4 if quick else 40)
     for (lat, tx) in lat_som:
         if lat > 1.5:
